@@ -137,10 +137,10 @@ PROPS = {
                  "composition make_diff -> call_diff_logic -> base_diff is by name only: call_diff_logic (dispatch on function "
                  "values) is an assumed contract and the callees proved in other sidecars appear as opaque functions",
                  "base_diff / default_diff / ordered_diff are proved against their spec (REMOVED rows of old absent from new at their old "
-                 "index, rows of new ADDED / MOVED / parent's op by the index rule, merged by the index sort) for levels without an "
-                 "%ignore_case rule, with lemmas: removed only if absent from new, added iff absent from old, nothing removed when all "
+                 "index, rows of new ADDED / MOVED / parent's op by the index rule, merged by the index sort), on the levels as _ignore_case "
+                 "returns them (both branches of _ignore_case are proved: rows of %ignore_case rules lower-cased, diff_pre extended), with lemmas: removed only if absent from new, added iff absent from old, nothing removed when all "
                  "rows stay; the list.sort() of (index, item) pairs is an opaque permutation (A3); call_diff_logic (dispatch on function "
-                 "values stored in the rulebook), apply_diff_rb, make_diff, rewrite_diff and the %ignore_case branch are bounded only; "
+                 "values stored in the rulebook), apply_diff_rb, make_diff, rewrite_diff are bounded only; "
                  "strip_unchanged and mark_unchanged are proved",
                  "text renderings (formatter.diff, gen_pre_as_diff) are bounded only"],
     ),
